@@ -915,7 +915,13 @@ static void
 orc_parse_advance (OrcParser *parser)
 {
   parser->p += parser->line_length;
-  if (parser->p[0] == '\n' || parser->p[0] == '\r') {
+  /* the line ends with \n, \r\n, or (last line, no terminator) with the
+   * end of the text, possibly after a stripped \r: step over the whole
+   * terminator, never over the final NUL */
+  if (parser->p[0] == '\r') {
+    parser->p++;
+  }
+  if (parser->p[0] == '\n') {
     parser->p++;
   }
 }
